@@ -60,7 +60,7 @@ def build_inputs(keybits, thorough, rnd):
     if thorough:
         for rounds in range(1, 25):
             structured(rounds)
-            for _ in range(300):
+            for _ in range(1200):
                 cases.append((rounds, [rnd.getrandbits(32) for _ in range(4)], bytes(rnd.getrandbits(8) for _ in range(kb)), "random"))
     else:
         structured(3)       # three rounds consume every key word of every key size at least once
